@@ -14,6 +14,8 @@ import (
 type Variant struct {
 	ID             string `json:"id"`
 	Header         string `json:"header"`
+	Header2        string `json:"header2"` // second Authorization header line (when Second)
+	Second         bool   `json:"second"`
 	Absent         bool   `json:"absent"`
 	Phase          string `json:"phase"`
 	TCP            bool   `json:"tcp"`
@@ -77,6 +79,23 @@ func classify(absent bool, h, login, pass string) string {
 		if b, err := base64.StdEncoding.DecodeString(f[1]); err == nil && string(b) == want {
 			return clsLenient
 		}
+	}
+	return clsMalformed
+}
+
+// classifyVariant: a repeated Authorization header is free (either outcome) when one of its values is the exactly
+// right one — the statement does not say which line counts — and must be rejected when none is.
+func classifyVariant(v Variant, login, pass string) string {
+	c := classify(v.Absent, v.Header, login, pass)
+	if !v.Second {
+		return c
+	}
+	c2 := classify(false, v.Header2, login, pass)
+	if c == clsRight || c2 == clsRight || c == clsLenient || c2 == clsLenient {
+		return clsLenient
+	}
+	if c == clsWrong && c2 == clsWrong {
+		return clsWrong
 	}
 	return clsMalformed
 }
@@ -187,12 +206,85 @@ func Alphabet(login, pass string, thorough bool) []Variant {
 	}
 	add("right_then_second_token", "ok_then_token", "Basic "+ok+" x")
 	add("comma_list", "ok_comma_bearer", "Basic "+ok+", Bearer x")
+	// ---- near misses of the exactly right ENCODED header (the families above mutate the decoded credentials)
+	const b64abc = "ABCDEFGHIJKLMNOPQRSTUVWXYZabcdefghijklmnopqrstuvwxyz0123456789+/"
+	flip := func(c byte) (byte, bool) {
+		switch {
+		case c >= 'a' && c <= 'z':
+			return c - 32, true
+		case c >= 'A' && c <= 'Z':
+			return c + 32, true
+		}
+		return c, false
+	}
+	repl := func(i int, c string) string { return ok[:i] + c + ok[i+1:] }
+	for i := 0; i < len(ok); i++ {
+		c := ok[i]
+		if f, isLetter := flip(c); isLetter {
+			add("encoded_case_flip", fmt.Sprintf("enc_flip_%02d", i), "Basic "+repl(i, string(f)))
+		}
+		if k := strings.IndexByte(b64abc, c); k >= 0 {
+			add("encoded_neighbour_symbol", fmt.Sprintf("enc_next_%02d", i), "Basic "+repl(i, string(b64abc[(k+1)%64])))
+			add("encoded_neighbour_symbol", fmt.Sprintf("enc_prev_%02d", i), "Basic "+repl(i, string(b64abc[(k+63)%64])))
+		}
+		switch c {
+		case '+':
+			add("encoded_other_alphabet_symbol", fmt.Sprintf("enc_urlsafe_%02d", i), "Basic "+repl(i, "-"))
+		case '/':
+			add("encoded_other_alphabet_symbol", fmt.Sprintf("enc_urlsafe_%02d", i), "Basic "+repl(i, "_"))
+		case '=':
+			add("encoded_padding", fmt.Sprintf("enc_pad_to_A_%02d", i), "Basic "+repl(i, "A"))
+		case 'K', 'k':
+			add("encoded_unicode_fold", fmt.Sprintf("enc_kelvin_%02d", i), "Basic "+repl(i, "\u212a"))
+		case 'S', 's':
+			add("encoded_unicode_fold", fmt.Sprintf("enc_long_s_%02d", i), "Basic "+repl(i, "\u017f"))
+		}
+	}
+	add("encoded_padding", "enc_pad_plus1", "Basic "+ok+"=")
+	add("encoded_padding", "enc_pad_plus2", "Basic "+ok+"==")
+	if strings.HasSuffix(ok, "=") {
+		add("encoded_padding", "enc_pad_minus1", "Basic "+ok[:len(ok)-1])
+		add("encoded_padding", "enc_pad_none", "Basic "+strings.TrimRight(ok, "="))
+	}
+	lower, upper, swapped := strings.ToLower(ok), strings.ToUpper(ok), swapCase(ok)
+	add("encoded_whole_case", "enc_lower", "Basic "+lower)
+	add("encoded_whole_case", "enc_upper", "Basic "+upper)
+	add("encoded_whole_case", "enc_swapcase", "Basic "+swapped)
+	nearMisses := []string{lower, swapped}
+	for i := 0; i < len(ok); i++ {
+		if f, isLetter := flip(ok[i]); isLetter {
+			nearMisses = append(nearMisses, repl(i, string(f)))
+			break
+		}
+	}
+	for _, scheme := range []string{"basic", "BASIC", "bAsIc"} {
+		add("scheme_case", "scheme_"+scheme+"_right", scheme+" "+ok) // exactly right payload: free (either outcome)
+		for j, nm := range nearMisses {
+			add("scheme_case_near_miss", fmt.Sprintf("scheme_%s_nm%d", scheme, j), scheme+" "+nm)
+		}
+	}
+	for j, nm := range nearMisses {
+		add("blank_padding_near_miss", fmt.Sprintf("two_spaces_nm%d", j), "Basic  "+nm)
+		add("blank_padding_near_miss", fmt.Sprintf("tab_sep_nm%d", j), "Basic\t"+nm)
+		add("blank_padding_near_miss", fmt.Sprintf("trailing_space_nm%d", j), "Basic "+nm+" ")
+		add("blank_padding_near_miss", fmt.Sprintf("trailing_tab_nm%d", j), "Basic "+nm+"\t")
+		add("blank_padding_near_miss", fmt.Sprintf("leading_space_nm%d", j), " Basic "+nm)
+	}
+	add("blank_padding", "trailing_tab", "Basic "+ok+"\t")
+	add("blank_padding", "leading_tab", "\tBasic "+ok)
+	// a repeated header line
+	wrongHdr := "Basic " + b64(login+":x"+pass)
+	out = append(out,
+		Variant{ID: "two_headers_right_wrong", Header: "Basic " + ok, Header2: wrongHdr, Second: true, Family: "repeated_header"},
+		Variant{ID: "two_headers_wrong_right", Header: wrongHdr, Header2: "Basic " + ok, Second: true, Family: "repeated_header"},
+		Variant{ID: "two_headers_wrong_nearmiss", Header: wrongHdr, Header2: "Basic " + lower, Second: true, Family: "repeated_header_all_wrong"},
+		Variant{ID: "two_headers_nearmiss_wrong", Header: "Basic " + swapped, Header2: wrongHdr, Second: true, Family: "repeated_header_all_wrong"})
 	out = append(out, Variant{ID: "right", Header: "Basic " + ok, Family: "right"})
 
 	tcpDone := map[string]bool{}
 	for i := range out {
 		v := &out[i]
-		v.Class = classify(v.Absent, v.Header, login, pass)
+		v.Class = classifyVariant(*v, login, pass)
 		v.MayPass = v.Class == clsLenient
 		v.PrimeSameRoute = v.Family == "same_length_undecodable" || fullProductReps[v.ID]
 		v.PathVariants = fullProductReps[v.ID]
@@ -209,7 +301,7 @@ func Alphabet(login, pass string, thorough bool) []Variant {
 		if v.Family == "other_scheme" || v.Family == "no_payload" || v.Family == "empty_header" {
 			v.Phase = "deny"
 		}
-		if headerSafe(v.Header) && tcpFamilies[v.Family] && !tcpDone[v.Family] {
+		if headerSafe(v.Header) && (!v.Second || headerSafe(v.Header2)) && tcpFamilies[v.Family] && !tcpDone[v.Family] {
 			v.TCP, tcpDone[v.Family] = true, true
 		}
 	}
@@ -220,7 +312,8 @@ func Alphabet(login, pass string, thorough bool) []Variant {
 // that what main() really serves behaves like the walked router; the full alphabet goes through the router in process)
 var tcpFamilies = map[string]bool{"absent": true, "other_scheme": true, "wrong_password": true, "wrong_user": true,
 	"proper_prefix": true, "right_b64_plus_garbage": true, "scheme_case": true, "no_payload": true, "right": true,
-	"pair_plus_suffix": true, "empty_part": true}
+	"pair_plus_suffix": true, "empty_part": true,
+	"encoded_case_flip": true, "encoded_whole_case": true, "scheme_case_near_miss": true, "repeated_header": true, "repeated_header_all_wrong": true}
 
 func swapCase(s string) string {
 	b := []byte(s)
